@@ -630,16 +630,24 @@ pub mod encdoc {
             3 => ("u-0123456789abcdefghijklmnopqrstuvwxyz-40".chars().take(40).collect(), "o-0123456789abcdefghijklmnopqrstuvwxyz-ABCDEF".into()),
             4 => (std::iter::repeat("user127-").take(16).collect::<String>()[..127].to_string(), std::iter::repeat("OWNER127/").take(15).collect::<String>()[..127].to_string()),
             5 => ("same-pw".into(), "same-pw".into()),
-            6 => ("only-user".into(), "".into()),
+            // longer than the 127 bytes revisions 5/6 keep (ISO 32000-2 7.6.4.3.2); one role at a time
+            6 => (std::iter::repeat("user128+").take(16).collect::<String>(), "owner-pw".into()),
+            7 => ("user-pw".into(), std::iter::repeat("OWNER-200/").take(20).collect::<String>()),
+            8 => ("only-user".into(), "".into()),
             _ => ("".into(), "".into()),
         }
     }
-    pub const PASSWORD_NAMES: [&str; 8] = ["ascii", "empty-user", "non-ascii", "longer-than-32", "127-bytes", "user=owner", "empty-owner", "both-empty"];
+    pub const PASSWORD_NAMES: [&str; 10] = ["ascii", "empty-user", "non-ascii", "longer-than-32", "127-bytes", "user=owner", "user-128-bytes", "owner-200-bytes", "empty-owner", "both-empty"];
+
+    /// canonical sets first, then raw /P values whose reserved bits are NOT in canonical form
+    pub const N_PERMS: usize = 14;
+    pub const RAW_PERMS: [u32; 4] = [0x0000_0F3C, 0x0000_0004, 0x7FFF_F0C4, 0xFFFF_FFFF];
 
     pub fn permission_set(k: usize) -> Permissions {
         match k {
             0 => Permissions::all(),
             1 => Permissions::new(),
+            n if n >= 10 => Permissions::from_bits(RAW_PERMS[(n - 10) % 4]),
             n => {
                 let b = n - 2;
                 Permissions::from_flags(PermissionFlags {
@@ -821,6 +829,14 @@ pub mod encdoc {
             }
             let u = match rc::unlock_ex(&mut f, pw.as_bytes()) {
                 Ok(u) => u,
+                Err(_) if pw.len() > 127 && rc::read_enc_info(&f).map(|i| i.r >= 5 && i.u.len() >= 48 && i.o.len() >= 48 && {
+                    // known signature: the verifier in the file was made from ALL bytes of the password
+                    let full = pw.as_bytes();
+                    if role == rc::Which::User { rc::hash_r56(i.r, full, &i.u[32..40], &[])[..] == i.u[..32] } else { rc::hash_r56(i.r, full, &i.o[32..40], &i.u[..48])[..] == i.o[..32] }
+                }).unwrap_or(false) => {
+                    out.push(("aes256-password-over-127-bytes-hashed-untruncated".into(), format!("{tag}: the {role:?} password has {} bytes; /U and /O verify only against the untruncated bytes, ISO 32000-2 7.6.4.3.2 keeps the first 127", pw.len())));
+                    continue;
+                }
                 Err(e) => {
                     out.push((format!("reference-reader-refuses-{}-password", if role == rc::Which::User { "user" } else { "owner" }), format!("{tag}: {pw:?}: {e}")));
                     continue;
